@@ -31,8 +31,8 @@ type faultVec struct {
 	Items int    `json:"items"`
 	Batch int    `json:"batch"`
 	EvLog bool   `json:"evlog,omitempty"` // also return the child's Pipeline event log
-	Real  string `json:"real,omitempty"` // "" = scripted producer; else a real renderer: mcu:<cells> | mco:<cells> | msu:<cells> | msq:<cells>
-	Dims  [3]int `json:"dims,omitempty"` // real uniform renders: bounding box size in cells (lattice = dims+2 points per axis)
+	Real  string `json:"real,omitempty"`  // "" = scripted producer; else a real renderer: mcu:<cells> | mco:<cells> | msu:<cells> | msq:<cells>
+	Dims  [3]int `json:"dims,omitempty"`  // real uniform renders: bounding box size in cells (lattice = dims+2 points per axis)
 }
 
 type faultObs struct {
@@ -47,7 +47,7 @@ type faultObs struct {
 	FileSize  int64    `json:"filesize"`
 	ChildExit int      `json:"childexit"`
 	EvLog     [][3]int `json:"evlog,omitempty"` // Pipeline events of the child (when requested)
-	Panicked  bool     `json:"panicked"` // the child died with a Go panic / runtime fault other than the deadlock report
+	Panicked  bool     `json:"panicked"`        // the child died with a Go panic / runtime fault other than the deadlock report
 	Fault     string   `json:"fault"`
 }
 
